@@ -1,3 +1,3 @@
 #!/usr/bin/env bash
 cd "$(dirname "${BASH_SOURCE[0]}")/.."
-for d in ${1:-refactorings/*}; do echo "== $d"; tools/refactor_eval.sh $d 2>&1 | grep -vE "rc=0 violations=0 *$" ; done
+for d in ${1:-refactorings/*/}; do d=${d%/}; echo "== $d"; tools/refactor_eval.sh $d 2>&1 | grep -vE "rc=0 violations=0 *$" ; done
